@@ -217,7 +217,14 @@ def showMsg : Msg → String
   | .eofFill => "eofFill" | .writeZeroMsg => "writeZeroMsg" | .schemaMismatch => "schemaMismatch"
   | .user n => "(user " ++ toString n ++ ")"
 
-def showErr (e : Err) : String := "err " ++ showKind e.kind ++ " " ++ showMsg e.msg
+/-- protocol convention of the scripted readers and writers: payload ids from 900 up stand for "no
+message" (an error built from the bare kind, except kind `Other`); the model carries the payload
+through unchanged either way -/
+def showErr (e : Err) : String :=
+  let m := match e.msg with
+    | .user n => if 900 ≤ n && e.kind != .other then "simple" else showMsg e.msg
+    | m => showMsg m
+  "err " ++ showKind e.kind ++ " " ++ m
 
 def showPanic : PanicSite → String
   | .divByZero => "divByZero" | .countOverflow => "countOverflow" | .sliceIndex => "sliceIndex"
